@@ -266,6 +266,34 @@ def run(ctx):
                      {True: "present", False: "absent", None: "not inspected"}[present], {True: "equal", False: "different", None: "not made"}[equal]),
                  sample={"rule": "GUARD", "fn": "ConfigDatabase::validate", "ok_path": "present and equal"})
         R.ob(n_ok >= 1, "GUARD", f.where(), "GUARD|ConfigDatabase::validate|has-ok", "validate has no Ok path")
+        # the same by abstract execution, which does not care how the decision is spelt: with the recorded value present and
+        # *different* from the supplied one (every other test undecided) no Ok return may be reachable; with it equal one must be.
+        # A second notion of "matches" (numeric order, prefix, case folding ...) opens an Ok return under `different`
+        from terms import explore_under, eval_term
+
+        def _env(different):
+            def env_of(t):
+                if t[0] == "call" and t[1].split("::")[-1] in ("eq", "ne") and len(t[2]) == 2:
+                    a0, a1 = t[2]
+                    if (mentions(a0, "get") and mentions(a1, "value")) or (mentions(a1, "get") and mentions(a0, "value")):
+                        return different == (t[1].split("::")[-1] == "ne")
+                    return None
+                if t[0] in ("discr", "un", "bin", "const", "cast", "ref", "deref", "field"):
+                    return None
+                if t[0] == "call" and t[1].split("::")[-1] in ("is_some", "is_none", "not"):
+                    return None
+                if mentions(t, "get") and not mentions(t, "value") and t[0] == "call":
+                    return "Some"
+                return None
+            return env_of
+        eb_ = set(eb)
+        ok_diff, _v = explore_under(f, _env(True), avoid=eb_)
+        ok_same, _v = explore_under(f, _env(False), avoid=eb_)
+        R.ob(not ok_diff, "GUARD", f.where(), "GUARD|ConfigDatabase::validate|different=>Err",
+             "validate can return Ok although the recorded value differs from the supplied one (Ok return reachable at bb%s with the equality test false): "
+             "a directory recorded under another version / network reopens" % sorted(ok_diff)[:3],
+             sample={"rule": "GUARD (abstract execution)", "fn": "ConfigDatabase::validate", "row": "present, recorded != supplied => no Ok return"})
+        R.ob(bool(ok_same), "GUARD", f.where(), "GUARD|ConfigDatabase::validate|equal=>Ok", "validate cannot return Ok for an equal recorded value")
         gets = [c for c in f.calls() if (c.method or "") == "get" and not f.is_cleanup(c.bb)]
         R.ob(bool(gets) and err_propagated(f, gets[0]), "ERR-prop", f.where(), "ERR-prop|ConfigDatabase::validate|get", "the read error is dropped")
         # the comparison is between the stored value and the `value` argument
